@@ -14,6 +14,24 @@ CLAIMED = {
         '(shape-pinned + pointwise comparison with the scalar branch).',
    technique='Coq theorems over generated Gallina (translator from time.py) + in-Coq differential evaluation of the model',
    design='5 C06'),
+ 'C03': dict(
+   text='Coq theorems over all operation histories of the Dist state machine on the exact PCG64 stream: prefix stability of the uniform stream, '
+        'pointwise-by-slot value of every agent draw (hence independence from other agents, order, repeats, population size), and a refinement of '
+        'whole histories to an abstract machine in which a draw is a function of (initial state, jump index, slot) only. Formulas regenerated from '
+        'distributions.py; the model is run in Coq bit-exactly against real ss.random/ss.bernoulli histories; the property itself is evaluated on all 16 families.',
+   note='Trusted: Coq kernel, translator (expression targets + shape pins on Dist.rvs/jump/reset), harness. NumPy non-uniform samplers and SciPy ppf are oracles '
+        '(covered only by the implementation-side evaluation). Theorems closed under the global context.',
+   technique='Coq refinement proof of the Dist/PCG64 state machine + bit-exact in-Coq differential evaluation',
+   design='5 C03'),
+ 'C04': dict(
+   text='Coq theorems: along any history of non-forced, non-resetting operations every draw starts from the clean state of its jump index and the jump '
+        'indices are strictly increasing (no bound on calls per step; stride overrun ends in a refusal); refusal theorems (uninitialised, strict second draw, '
+        'backward jump); seed check sound and complete. Distinct indices => distinct states is proved under the explicit hypothesis pcg_free (full period of '
+        'PCG64 on the jump lattice, a fact about NumPy). Whole real runs are logged draw by draw and every start state is recomputed exactly by the model in Coq.',
+   note='Trusted: Coq kernel, translator, run-time wrapper on Dist.rvs/Dist.jump installed by the harness. pcg_free is a hypothesis (Definition), not an axiom. '
+        'Cross-distribution distinctness rests on NumPy SeedSequence (checked on the logged states, not proved).',
+   technique='Coq invariant proof over operation histories + exact recomputation of logged generator states in Coq',
+   design='5 C04'),
 }
 
 checks = []
